@@ -613,7 +613,9 @@ def _dcg_contract(name, params, requires, extra_ensures):
     return contract(
         "ufo2ft.util:decomposeCompositeGlyph",
         name=name,
-        props=["C01", "C15"],
+        # C13: an inlined non-export glyph must be drawn through a pen with reverseFlipped=True (as the ordinary decomposition
+        # does), else a mirrored reference changes the winding of a remaining glyph (seed C13-3)
+        props=["C01", "C15", "C13"],
         params=params,
         requires=requires,
         modifies=["C01_Glyph.components", "C01_Glyph.log_drawn", "C01_Glyph.log_pens"],
@@ -703,7 +705,7 @@ contract(
     "ufo2ft.filters.skipExportGlyphs:SkipExportGlyphsFilter.filter",
     name="c01",
     calls=_DCG_CALLS,
-    props=["C01", "C15"],
+    props=["C01", "C15", "C13"],
     params={"self": Ref("C01_Filter"), "glyph": Ref("C01_Glyph")},
     returns=BOOL,
     modifies=["C01_Glyph.components", "C01_Glyph.log_drawn", "C01_Glyph.log_pens"],
